@@ -2101,6 +2101,95 @@ def check_icaseguard(facts):
     return r
 
 
+# ---- PARSEONLY ------------------------------------------------------------------------------
+
+def check_parseonly(facts):
+    r = RuleResult("PARSEONLY", "the parser works on code points and produces character-level IR: (a) parse.rs builds no byte-level node "
+                                "(`Node::ByteSequence` / `Node::ByteSet`) — those appear only in the optimizer, after `finalize` has run "
+                                "`reverse_cats`, which panics on them (a lowering done in the parser under `!has_lookbehind` meets a lookbehind "
+                                "written later in the pattern); (b) parse.rs never slices a `str` by byte ranges (`&name[..32]` panics inside a "
+                                "multi-byte identifier character); (c) an Option-returning `try_*` routine that keeps no saved copy of the input "
+                                "never answers `None` at a point that is only reached after it consumed something — callers rely on `first character is a digit => Some` "
+                                "(`.unwrap()`), and on `None` meaning that nothing was read")
+    n = 0
+    for fn in sorted(facts.body_names()):
+        if not (fn.startswith("parse::") or fn.startswith("<parse::")) or "::tests::" in fn:
+            continue
+        b = facts.body(fn)
+        base = re.sub(r"(::\{closure#\d+\})+$", "", fn)
+        for bi, i, st in b.iter_stmts():
+            if st["k"] == "assign" and st["rv"]["k"] == "agg" and str(st["rv"].get("adt", "")).endswith("ir::Node") and \
+                    str(st["rv"].get("variant")) in ("ByteSequence", "ByteSet"):
+                r.fail("%s builds Node::%s" % (base, st["rv"].get("variant")),
+                       "the parser builds a byte-level node (line %s): Parser::finalize reverses the IR of a lookbehind and panics on byte nodes "
+                       "(\"Should not be reversing literal bytes\") — e.g. when the lookbehind comes later in the pattern than the node" % st["line"],
+                       facts.loc(fn, st["line"]))
+        for bb, t in b.iter_calls():
+            cal = t.get("callee") or ""
+            if cal.endswith("ops::Index::index") or cal.endswith("ops::IndexMut::index_mut"):
+                a0 = t["args"][0] if t["args"] else {}
+                ty0 = str(a0.get("pl", {}).get("ty", "")) + " " + (b.local_ty(a0["pl"]["l"]) if a0.get("k") in ("copy", "move") else "")
+                ity = b.local_ty(t["args"][1]["pl"]["l"]) if len(t["args"]) > 1 and t["args"][1].get("k") in ("copy", "move") else ""
+                if re.search(r"(^|[ &])(str|std::string::String)\b", ty0.replace("alloc::", "std::")) and "Range" in ity:
+                    r.fail("%s slices a str" % base, "the parser slices a string by a byte range (line %s): a bound that falls inside a "
+                           "multi-byte character panics while compiling" % t.get("line"), facts.loc(fn, t.get("line")))
+            if cal.startswith("literal::") or cal.startswith("<literal::"):
+                r.fail("%s calls literal::%s" % (base, cal.split("::")[-1]), "the parser calls %s (line %s): the byte lowering belongs to the optimizer / emitter, "
+                       "after `finalize` has reversed the lookbehinds — byte-level nodes built while parsing make `reverse_cats` panic when a "
+                       "lookbehind follows later in the pattern" % (cal.split("::")[-1], t.get("line")), facts.loc(fn, t.get("line")))
+    r.ok("parse.rs builds no byte-level node and slices no str")
+    # (c)
+    for fn in sorted(facts.body_names()):
+        if not re.match(r"^parse::Parser::<I>::try_\w+$", fn):
+            continue
+        b = facts.body(fn)
+        if not b.local_ty(0).replace("core::", "std::").startswith("std::option::Option<"):
+            continue
+        saves = any((t.get("callee") or "").endswith("Clone::clone") and t["args"] and t["args"][0].get("k") in ("copy", "move") and
+                    [x.get("f") for x in b.root_of(t["args"][0]["pl"]["l"])[1] if isinstance(x, dict) and "f" in x][-1:] == ["input"]
+                    for _, t in b.iter_calls())
+        if saves:
+            continue      # REWIND decides those
+        n += 1
+        consume = set()
+        for bb, t in b.iter_calls():
+            last = (t.get("callee") or "").split("::")[-1]
+            if last in ("next", "consume") and (t.get("callee") or "").startswith("parse::"):
+                consume.add(t.get("t"))
+        nones = set()
+        for bi in b.reachable():
+            blk = b.blocks[bi]
+            if any(st["k"] == "assign" and st["pl"]["l"] == 0 and not st["pl"]["p"] and st["rv"]["k"] == "agg" and str(st["rv"].get("variant")) == "None"
+                   for st in blk["s"]):
+                nones.add(bi)
+            t = blk["t"]
+            if t["k"] == "call" and t["dest"]["l"] == 0 and not t["dest"]["p"] and (t.get("callee") or "").endswith("FromResidual::from_residual"):
+                nones.add(bi)
+        key = "%s answers None only before consuming" % fn
+        passed = [st["line"] for bi, i, st in b.iter_stmts() if st["k"] == "assign" and st["pl"]["l"] == 0 and not st["pl"]["p"] and st["rv"]["k"] != "agg"]
+        passed += [t.get("line") for bb, t in b.iter_calls() if t["dest"]["l"] == 0 and not t["dest"]["p"]
+                   and not (t.get("callee") or "").endswith("FromResidual::from_residual")]
+        if passed:
+            r.fail(key, "the routine returns an Option it computed elsewhere (line %s) instead of an explicit `Some(..)` / `None`: whether it can "
+                        "answer None after consuming input is no longer visible — a checked arithmetic chain that fails on overflow returns "
+                        "None for a number the caller `unwrap()`s" % passed[0], facts.loc(fn, passed[0]))
+            continue
+        late = set()
+        dom_ = b.dom()
+        for c in consume:
+            if c is not None:
+                late |= {x for x in nones if c == x or c in dom_[x]}     # on every path to that None something was consumed
+        if late:
+            ln = b.blocks[sorted(late)[0]]["t"].get("line")
+            r.fail(key, "a `None` (line %s) is reachable after the routine has consumed input and it keeps no saved copy to restore: callers "
+                        "treat None as 'nothing read' or rely on Some once the first character fits (`\\18446744073709551616` reaches an "
+                        "`unwrap()` on None)" % ln, facts.loc(fn, ln))
+        else:
+            r.ok(key)
+    r.floor("try_routines_without_a_saved_copy", n, 1)
+    return r
+
+
 # ---- MONOID ---------------------------------------------------------------------------------
 
 def check_monoid(facts):
